@@ -75,6 +75,10 @@ REGRESSION = [
     # witnesses quoted in properties.jsonl / DESIGN section 6 that are not table rows
     {"row": 0, "text": "A v. B, 1 U.S. 1, 2 S. Ct. 2 (1999). Foo v. Bar, 3 F.3d 3 (2d Cir. 2000); Id. at 5."},
     {"row": 0, "markup": "<p><i>Foo</i> v. <i>Bar,</i> 1 U.S. 1 (1999). In <i>Foo</i>, the court held. Foo at 12.</p>"},
+    # C19-1 (fixed): the diff aligned the italic name with attribute characters; the reference came back with an empty span
+    {"row": 0, "markup": "<div class=\"opinion\" data-page=\"101\" id=\"b101-5\"><p class=\"opinion\" data-page=\"101\" id=\"b101-5\">Bell Atlantic Corp.</p>\n<p>v.</p>\n"
+                         "<p class=\"opinion\" data-page=\"101\" id=\"b101-5\"><em>\nFoo,</em> 380 A.3d 497, n.3 (0000).</p>\n"
+                         "<p class=\"opinion\" data-page=\"101\" id=\"b101-5\"><i>\nFoo</i>, 758 Johns.Rep., 4.\u00a0</p></div>"},
 ]
 
 # --------------------------------------------------------------------------------------------
